@@ -33,6 +33,7 @@ const (
 )
 
 type Plan struct {
+	Stalls []Stall `json:"stalls,omitempty"`
 	Profile   string        `json:"profile"`
 	H         time.Duration `json:"h"`
 	TTL       time.Duration `json:"ttl"`
@@ -165,6 +166,9 @@ type Action struct {
 	// Overlap (start): issued even while a stop call on the same object has not returned yet (another
 	// goroutine of the application restarts the election while the first is still inside Stop)
 	Overlap bool `json:"overlap,omitempty"`
+	// OnlyRunning (cancelctx): only the context of the run that is under way is cancelled, not the contexts of
+	// Start calls that have not returned yet (the caller cancels the old run while it starts the next)
+	OnlyRunning bool `json:"only_running,omitempty"`
 
 	// cancelctx: do not wait for the election to have stopped (the action is then only the cancellation)
 	NoWait bool `json:"no_wait,omitempty"`
@@ -226,6 +230,25 @@ func (p *Plan) hangFor() time.Duration {
 	}
 	return 5 * time.Second
 }
+
+// Stall: the library goroutine of instance Inst that reaches scheduling point Point for the N-th time (0-based)
+// is descheduled there for D of virtual time. The points sit between two steps of the library that are not
+// atomic together (inserted by the build-time overlay, see ./check POINTS); no lock is held at any of them.
+type Stall struct {
+	Inst  int           `json:"inst"`
+	Point string        `json:"point"`
+	N     int           `json:"n"`
+	D     time.Duration `json:"d"`
+	// CancelRun: at that point, before any stall, the context of the instance's current run is cancelled on
+	// this very goroutine (the goroutines that cancellation wakes have not run yet when the library goes on)
+	CancelRun bool `json:"cancel_run,omitempty"`
+}
+
+const (
+	PointStartLookLock  = "start-between-look-and-lock"
+	PointAcquireAdopt   = "acquire-between-check-and-adoption"
+	PointHeartbeatLoads = "heartbeat-between-leader-check-and-revision-load"
+)
 
 // Hammer: N concurrent caller goroutines that issue API calls on one instance
 // during [From, To), pausing Gap of virtual time between calls (C20).
